@@ -125,3 +125,54 @@ Definition cell_value (en : env) (w : Z) (data : list expr) (y x : Z) : option v
 Definition orth_neighbour (h w y x y' x' : Z) : Prop :=
   0 <= y' < h /\ 0 <= x' < w /\
   ((y' = y - 1 /\ x' = x) \/ (y' = y + 1 /\ x' = x) \/ (y' = y /\ x' = x - 1) \/ (y' = y /\ x' = x + 1)).
+
+(* ---- unary forms, then, cond *)
+Definition unop_kind (u : pyunop) : kind := match u with UInvert => KB | UNeg => KI end.
+Definition unop_sem (u : pyunop) (a : option value) : option value :=
+  match u with
+  | UInvert => option_map (fun x => VB (negb x)) (vbool a)
+  | UNeg => option_map (fun x => VI (- x)) (vint a)
+  end.
+Definition then_sem (a b : option value) : option value := lift_bb implb a b.
+Definition cond_sem (c t f : option value) : option value :=
+  match vbool c, vint t, vint f with
+  | Some c, Some t, Some f => Some (VI (if c then t else f))
+  | _, _, _ => None
+  end.
+
+(* shape of the first array among the operands *)
+Fixpoint first_shape (l : list pyval) : option shape :=
+  match l with
+  | [] => None
+  | VA _ sh _ :: _ => Some sh
+  | VE _ :: r => first_shape r
+  end.
+
+(* ---- shapes of the statements in Props/C12.v *)
+
+(* r is an array of sort k and shape sh whose i-th item denotes [sem en i] *)
+Definition pointwise_result (r : res pyval) (k : kind) (sh : shape)
+           (sem : env -> nat -> option value) : Prop :=
+  exists data, r = Ok (VA k sh data) /\ zlen data = shape_size sh /\
+    forall i, (i < length data)%nat ->
+      exists e, nth_error data i = Some e /\ forall en, eval no_graph en e = sem en i.
+
+(* the classes that define then / cond *)
+Definition bool_class (v : pyval) : bool :=
+  match method_class (class_of v) with
+  | Some CBoolExpr | Some CBoolArray1D | Some CBoolArray2D => true
+  | _ => false
+  end.
+
+Definition ev := eval no_graph.
+
+(* "the items of l denote the booleans bs / the integers zs under en" *)
+Definition denote_bools (en : env) (l : list expr) (bs : list bool) : Prop :=
+  map (ev en) l = map (fun b => Some (VB b)) bs.
+Definition denote_ints (en : env) (l : list expr) (zs : list Z) : Prop :=
+  map (ev en) l = map (fun z => Some (VI z)) zs.
+
+(* the items count_true / fold_or / fold_and, resp. alldifferent, accept *)
+Definition bool_item (e : expr) : bool := match e with PyBool _ | BVar _ | BNode _ _ => true | _ => false end.
+Definition int_item (e : expr) : bool :=
+  match e with PyInt _ | PyBool _ | IVar _ _ _ | INode _ _ => true | _ => false end.
